@@ -193,6 +193,7 @@ def classify(cl, labs, new, ax, nd, case):
 
 def run_case(case):
     da = core.env.import_dimarray()
+    case = dict(case, new=core.snap_to_nodes(case["new"], case["spec"]["labels"][case["ax"]]))
     spec, ax, new = case["spec"], case["ax"], case["new"]
     dims, labels = spec["dims"], spec["labels"]
     nd = len(dims)
